@@ -60,6 +60,14 @@ def anchors(a: Anchors):
            lambda fn: all(t in norm(ast.unparse(fn)) for t in ["loader.molecules.with_features(index).groupby(self._by)",
                                                                "molecules=mole.drop_features(index_col_name)"]))
 
+    a.fact("apply_table_is_list_of_columns", LB, "LoaderBase.apply", "one task list per function, one numpy column per task list, DataFrame(list of columns, schema)",
+           lambda fn: all(t in norm(ast.unparse(fn)) for t in ["forfninfuncs:tasks=self.construct_mapping_tasks(fn,output_shape=self.output_shape)all_tasks.append(tasks)",
+                                                               "all_results=compute(all_tasks)", "df_input=[np.array(r)forrinall_results]",
+                                                               "returnpl.DataFrame(df_input,schema=schema)"]))
+    a.fact("group_apply_table_is_named_columns", "acryo/loader/_group.py", "LoaderGroup.apply", "per group: one task list per function; table = {name: column}",
+           lambda fn: all(t in norm(ast.unparse(fn)) for t in ["forfnin_funcs:", "taskset.append(list(tasks))", "all_tasks.append(taskset)", "keys.append(key)",
+                                                               "forkey,resultinzip(keys,all_results):", "out[key]=pl.DataFrame({name:np.asarray(col)forname,colinzip(schema,result)})"]))
+
 
 # --------------------------------------------------------------------------
 D = 7
@@ -589,7 +597,7 @@ def run(ck: common.Check):
     a = Anchors(common.REPO)
     anchors(a)
     ck.write_anchors(PID, a)
-    ck.build(["C03"], ["C03/Property.v", "C03/PropertyRegistry.v"], extra=["C03/Registry.v"])
+    ck.build(["C03"], ["C03/Property.v", "C03/PropertyRegistry.v", "C03/PropertyApply.v"], extra=["C03/Registry.v", "C03/ApplyTable.v"])
     rng = np.random.default_rng(ck.seed + 303)
     corr_histories(ck, rng)
     oracle_results(ck, rng)
